@@ -1333,7 +1333,16 @@ class TTNS(TTNBase):
         The new TTNS.
         """
         new = self.metacopy()
+        # the tensors are only summed directly if both states carry the same prefactor
+        if self.coeff == other.coeff:
+            root_factors = (1, 1)
+        else:
+            root_factors = (self.coeff, other.coeff)
+            new.coeff = 1
         for new_node, node1, node2 in zip(new, self, other):
+            tensor1, tensor2 = node1.tensor, node2.tensor
+            if node1 is self.root:
+                tensor1, tensor2 = tensor1 * root_factors[0], tensor2 * root_factors[1]
             new_shape = []
             indices1 = []
             indices2 = []
@@ -1350,12 +1359,12 @@ class TTNS(TTNBase):
                     new_shape.append(dim1 + dim2)
                     indices1.append(slice(0, dim1))
                     indices2.append(slice(dim1, dim1 + dim2))
-            dtype = np.promote_types(node1.tensor.dtype, node2.tensor.dtype)
+            dtype = np.promote_types(tensor1.dtype, tensor2.dtype)
             new_node.tensor = np.zeros(new_shape, dtype=dtype)
             indices1 = tuple(indices1)
             indices2 = tuple(indices2)
-            new_node.tensor[indices1] = node1.tensor
-            new_node.tensor[indices2] = node2.tensor
+            new_node.tensor[indices1] = tensor1
+            new_node.tensor[indices2] = tensor2
             if node1 is self.root:
                 np.testing.assert_allclose(node1.qn, node2.qn)
                 new_node.qn = node1.qn.copy()
